@@ -104,27 +104,38 @@ def allGroups (e : Est) : List (W × List Clu) := groupByW e.st.sortedClus
 
 variable (pol : BB.Cfg → Policy)
 
+/-- `_InitialRound.__call__` on one file, up to `_save_bufs_and_mol_idxs`: the groups to save
+(every step that raises ends the task) -/
+def initialGroups (c : Cfg) (rows : List Row) (start : Nat) : Except Err (List (W × List Clu)) :=
+  match mkEst c.bf c.thr c.initCrit none with
+  | .error x => .error x
+  | .ok e0 =>
+    match fit (pol e0.cfg) e0 rows (some (List.range' start rows.length)) with
+    | (_, some x) => .error x
+    | (e1, none) =>
+      match delInternal e1 with
+      | (_, some x) => .error x
+      | (e1, none) =>
+        match c.mode with
+        | .none => .ok (allGroups e1)
+        | .split => refineGroups e1.st.sortedClus 1 rows start
+        | .full =>
+          match refineGroups e1.st.sortedClus 1 rows start with
+          | .error x => .error x
+          | .ok groups =>
+            match setMerge e1.reset (some (.name c.midCrit)) (some c.tol) (some (fadd c.thr c.thrChange)) none with
+            | (_, some x) => .error x
+            | (e2, none) =>
+              match refitGroups pol e2 groups with
+              | (_, some x) => .error x
+              | (e3, none) =>
+                match delInternal e3 with
+                | (_, some x) => .error x
+                | (e4, none) => .ok (allGroups e4)
+
 /-- `_InitialRound.__call__` on one file: `(label, rows, start)` -/
-def initialTask (c : Cfg) (label : String) (rows : List Row) (start : Nat) : Except Err Writes := do
-  let e0 ← mkEst c.bf c.thr c.initCrit none
-  let (e1, err) := fit (pol e0.cfg) e0 rows (some (List.range' start rows.length))
-  if let some x := err then throw x
-  let (e1, err) := delInternal e1
-  if let some x := err then throw x
-  match c.mode with
-  | .none => pure (saveGroups 1 label (allGroups e1))
-  | .split =>
-    let groups ← refineGroups e1.st.sortedClus 1 rows start
-    pure (saveGroups 1 label groups)
-  | .full =>
-    let groups ← refineGroups e1.st.sortedClus 1 rows start
-    let (e2, err) := setMerge e1.reset (some (.name c.midCrit)) (some c.tol) (some (fadd c.thr c.thrChange)) none
-    if let some x := err then throw x
-    let (e3, err) := refitGroups pol e2 groups
-    if let some x := err then throw x
-    let (e4, err) := delInternal e3
-    if let some x := err then throw x
-    pure (saveGroups 1 label (allGroups e4))
+def initialTask (c : Cfg) (label : String) (rows : List Row) (start : Nat) : Except Err Writes :=
+  (initialGroups pol c rows start).map (saveGroups 1 label)
 
 /-- the units of a (buffer file, index file) pair; `zip` stops at the shorter, and
 `_BFSubcluster(buffer=…, mol_indices=…)` checks `len(mol_indices) == buffer[-1]` -/
@@ -135,16 +146,22 @@ def unitsOf (b i : Content) : Except Err (List Clu) :=
       if p.2.length = p.1.2 then .ok (Clu.ofBuffer w p.1.1 p.1.2 p.2) else .error .value)
   | _, _ => .error .value
 
+/-- the units read back from one (buffer file, index file) pair of names -/
+def pairUnits (fs : FS) (p : String × String) : Except Err (List Clu) :=
+  match fs.read p.1, fs.read p.2 with
+  | some b, some i => unitsOf b i
+  | _, _ => .error .value
+
 /-- read and re-insert the given pairs, in order -/
 def fitPairs (fs : FS) : Est → List (String × String) → Except Err Est
   | e, [] => .ok e
-  | e, (bn, ix) :: rest => do
-    let b ← (fs.read bn).elim (.error .value) .ok
-    let i ← (fs.read ix).elim (.error .value) .ok
-    let us ← unitsOf b i
-    let (e', err) := fitBuffers (pol e.cfg) e us
-    if let some x := err then throw x
-    fitPairs fs e' rest
+  | e, p :: rest =>
+    match pairUnits fs p with
+    | .error x => .error x
+    | .ok us =>
+      match fitBuffers (pol e.cfg) e us with
+      | (_, some x) => .error x
+      | (e', none) => fitPairs fs e' rest
 
 /-- `_bf_to_np_refine(all_fp_paths)`: as `refineGroups`, the exploded ids sorted ascending
 (the file-sequence branch reads the rows in sorted index order) -/
@@ -154,28 +171,48 @@ def refineGroupsSorted (bfs : List Clu) (allRows : List Row) : Except Err (List 
   | none => .error .index
   | some us => .ok (if us.flatten.isEmpty then groups0 else addToU8 groups0 us.flatten)
 
+/-- rebuild a tree from the given pairs and release its internal nodes
+(the common part of `_TreeMergingRound.__call__` and `_FinalTreeMergingRound.__call__`) -/
+def mergedEst (bf : Nat) (thr : Rat) (crit : String) (tol : Rat) (fs : FS) (pairs : List (String × String)) :
+    Except Err Est :=
+  match mkEst bf thr crit (some tol) with
+  | .error x => .error x
+  | .ok e0 =>
+    match fitPairs pol fs e0 pairs with
+    | .error x => .error x
+    | .ok e1 =>
+      match delInternal e1 with
+      | (_, some x) => .error x
+      | (e2, none) => .ok e2
+
+/-- `_TreeMergingRound.__call__` on one batch, up to `_save_bufs_and_mol_idxs`: the groups to save -/
+def mergingGroups (c : Cfg) (allRows : List Row) (fs : FS) (pairs : List (String × String)) :
+    Except Err (List (W × List Clu)) :=
+  match mergedEst pol c.bf (fadd c.thr c.thrChange) c.midCrit c.tol fs pairs with
+  | .error x => .error x
+  | .ok e2 =>
+    if c.splitAfterMid then refineGroupsSorted e2.st.sortedClus allRows
+    else .ok (allGroups e2)
+
 /-- `_TreeMergingRound.__call__` on one batch -/
 def mergingTask (c : Cfg) (allRows : List Row) (r : Nat) (fs : FS) (label : String)
-    (pairs : List (String × String)) : Except Err Writes := do
-  let e0 ← mkEst c.bf (fadd c.thr c.thrChange) c.midCrit (some c.tol)
-  let e1 ← fitPairs pol fs e0 pairs
-  let (e2, err) := delInternal e1
-  if let some x := err then throw x
-  if c.splitAfterMid then
-    let groups ← refineGroupsSorted e2.st.sortedClus allRows
-    pure (saveGroups r label groups)
-  else pure (saveGroups r label (allGroups e2))
+    (pairs : List (String × String)) : Except Err Writes :=
+  (mergingGroups pol c allRows fs pairs).map (saveGroups r label)
+
+/-- `_FinalTreeMergingRound.__call__` up to the reports: the final sub-clusters, largest first -/
+def finalClus (c : Cfg) (fs : FS) (pairs : List (String × String)) : Except Err (List Clu) :=
+  match mergedEst pol c.bf (fadd c.thr c.thrChange) c.finalCrit c.tol fs pairs with
+  | .error x => .error x
+  | .ok e2 => .ok e2.st.sortedClus
+
+/-- the final files: centroids first, the cluster file last (its presence marks a completed run) -/
+def finalWrites (c : Cfg) (cl : List Clu) : Writes :=
+  (if c.saveCentroids then [("cluster-centroids-packed.pkl", Content.centroids (cl.map (·.cent)))] else [])
+    ++ [("clusters.pkl", Content.clusters (cl.map (·.ids)))]
 
 /-- `_FinalTreeMergingRound.__call__` -/
-def finalTask (c : Cfg) (fs : FS) (pairs : List (String × String)) : Except Err Writes := do
-  let e0 ← mkEst c.bf (fadd c.thr c.thrChange) c.finalCrit (some c.tol)
-  let e1 ← fitPairs pol fs e0 pairs
-  let (e2, err) := delInternal e1
-  if let some x := err then throw x
-  let cl := e2.st.sortedClus
-  -- centroids first, the cluster file last: its presence marks a completed run
-  pure ((if c.saveCentroids then [("cluster-centroids-packed.pkl", Content.centroids (cl.map (·.cent)))] else [])
-    ++ [("clusters.pkl", Content.clusters (cl.map (·.ids)))])
+def finalTask (c : Cfg) (fs : FS) (pairs : List (String × String)) : Except Err Writes :=
+  (finalClus pol c fs pairs).map (finalWrites c)
 
 /-- `_get_prev_round_buf_and_mol_idxs_files`: both listings sorted, zipped -/
 def prevPairs (fs : FS) (r : Nat) : List (String × String) :=
@@ -216,27 +253,97 @@ def fileTuples (files : List (List Row)) : List (String × List Row × Nat) :=
   let starts := files.foldl (fun (acc : List Nat × Nat) f => (acc.1 ++ [acc.2], acc.2 + f.length)) ([], 0)
   (files.zip starts.1).zipIdx.map (fun ((f, s), i) => (zfill z i, f, s))
 
+/-- the order in which the `n` tasks of round `r` are executed: `sched r` of the task indices;
+a pool executes every task exactly once, so anything that is not a permutation of the indices
+is ignored (the tasks then run in submission order) -/
+def orderOf (sched : Nat → List Nat → List Nat) (r n : Nat) : List Nat :=
+  let o := sched r (List.range n)
+  if o.isPerm (List.range n) then o else List.range n
+
+/-- execute the tasks of a round in the given order -/
+def runTasks (fs : FS) (tasks : List (Except Err Writes)) (order : List Nat) : Except Err FS :=
+  execRound fs (order.map (fun i => tasks.getD i (.error .value)))
+
+/-- the tasks of midsection round `r` on the directory `fs` -/
+def midTasks (c : Cfg) (allRows : List Row) (r : Nat) (fs : FS) : List (Except Err Writes) :=
+  (batches (prevPairs fs r) c.binSize).map (fun b => mergingTask pol c allRows r fs b.1 b.2)
+
 def midRounds (c : Cfg) (allRows : List Row) (sched : Nat → List Nat → List Nat) : Nat → Nat → FS → Except Err FS
   | 0, _, fs => .ok fs
   | k+1, r, fs => do
-    let bs := batches (prevPairs fs r) c.binSize
-    let tasks := bs.map (fun b => mergingTask pol c allRows r fs b.1 b.2)
-    let order := sched r (List.range tasks.length)
-    let fs' ← execRound fs (order.map (fun i => tasks.getD i (.error .value)))
+    let tasks := midTasks pol c allRows r fs
+    let fs' ← runTasks fs tasks (orderOf sched r tasks.length)
     midRounds c allRows sched k (r + 1) fs'
+
+/-- the tasks of the initial round -/
+def initTasks (c : Cfg) (files : List (List Row)) : List (Except Err Writes) :=
+  (fileTuples files).map (fun t => initialTask pol c t.1 t.2.1 t.2.2)
+
+/-- `_remove_leftovers` -/
+def purge (fs : FS) : FS := fs.remove (fun n => isRoundFile n || isFinalFile n)
 
 /-- `run_multiround_bitbirch`; `sched r idxs` is the order in which the tasks of round `r` complete -/
 def multiround (c : Cfg) (files : List (List Row)) (sched : Nat → List Nat → List Nat) (fs0 : FS) : Except Err FS := do
   -- leftovers of earlier (possibly interrupted) runs are removed first
-  let fs := fs0.remove (fun n => isRoundFile n || isFinalFile n)
-  let allRows := files.flatten
-  let tasks1 := (fileTuples files).map (fun t => initialTask pol c t.1 t.2.1 t.2.2)
-  let order := sched 1 (List.range tasks1.length)
-  let fs1 ← execRound fs (order.map (fun i => tasks1.getD i (.error .value)))
-  let fs2 ← midRounds pol c allRows sched c.nMidRounds 2 fs1
+  let fs := purge fs0
+  let tasks1 := initTasks pol c files
+  let fs1 ← runTasks fs tasks1 (orderOf sched 1 tasks1.length)
+  let fs2 ← midRounds pol c files.flatten sched c.nMidRounds 2 fs1
   let r := c.nMidRounds + 2
   let ws ← finalTask pol c fs2 (prevPairs fs2 r)
   let fs3 := writeAll fs2 ws
   pure (if c.cleanup then fs3.remove isRoundFile else fs3)
+
+/-! ### the same run, with every intermediate directory state
+
+The trace lists the directory after the initial purge and after every single file write, in
+execution order (and after the final cleanup, taken as one step); a run that is interrupted
+leaves one of these states behind.  A failing run stops at the first task that raises. -/
+
+/-- directory states after each single file write -/
+def writeTrace (fs : FS) : Writes → List FS
+  | [] => []
+  | w :: ws => fs.write w.1 w.2 :: writeTrace (fs.write w.1 w.2) ws
+
+/-- `execRound` with the states after every single write, up to the first failing task -/
+def execRoundT (fs : FS) : List (Except Err Writes) → List FS × Except Err FS
+  | [] => ([], .ok fs)
+  | .error e :: _ => ([], .error e)
+  | .ok ws :: ts =>
+    let r := execRoundT (writeAll fs ws) ts
+    (writeTrace fs ws ++ r.1, r.2)
+
+def runTasksT (fs : FS) (tasks : List (Except Err Writes)) (order : List Nat) : List FS × Except Err FS :=
+  execRoundT fs (order.map (fun i => tasks.getD i (.error .value)))
+
+def midRoundsT (c : Cfg) (allRows : List Row) (sched : Nat → List Nat → List Nat) :
+    Nat → Nat → FS → List FS × Except Err FS
+  | 0, _, fs => ([], .ok fs)
+  | k+1, r, fs =>
+    let tasks := midTasks pol c allRows r fs
+    match runTasksT fs tasks (orderOf sched r tasks.length) with
+    | (tr, .error e) => (tr, .error e)
+    | (tr, .ok fs') =>
+      let r' := midRoundsT c allRows sched k (r + 1) fs'
+      (tr ++ r'.1, r'.2)
+
+/-- `multiround` with its trace of directory states -/
+def multiroundTrace (c : Cfg) (files : List (List Row)) (sched : Nat → List Nat → List Nat) (fs0 : FS) :
+    List FS × Except Err FS :=
+  let fs := purge fs0
+  let tasks1 := initTasks pol c files
+  match runTasksT fs tasks1 (orderOf sched 1 tasks1.length) with
+  | (t1, .error e) => (fs :: t1, .error e)
+  | (t1, .ok fs1) =>
+    match midRoundsT pol c files.flatten sched c.nMidRounds 2 fs1 with
+    | (t2, .error e) => (fs :: t1 ++ t2, .error e)
+    | (t2, .ok fs2) =>
+      match finalTask pol c fs2 (prevPairs fs2 (c.nMidRounds + 2)) with
+      | .error e => (fs :: t1 ++ t2, .error e)
+      | .ok ws =>
+        let fs3 := writeAll fs2 ws
+        let t3 := writeTrace fs2 ws
+        if c.cleanup then (fs :: t1 ++ t2 ++ t3 ++ [fs3.remove isRoundFile], .ok (fs3.remove isRoundFile))
+        else (fs :: t1 ++ t2 ++ t3, .ok fs3)
 
 end BB.MR
